@@ -6,14 +6,14 @@ from .. import app, docprops, engine
 from ..runner import Run, h64
 from .c07 import CRASH_RE
 
-PLAN = {"B2/53": 700, "B3/89": 500, "N1/11": 900, "W1/2": 700, "S2": 500, "S3": 120, "I4/97": 200, "B4/83": 200, "H4/3": 200}
+PLAN = {"B2/53": 700, "B3/89": 500, "N1/11": 900, "W1/2": 700, "S2": 500, "S3": 120, "I4/97": 200, "B4/83": 200, "H4/3": 200, "P2": 400}
 EVALUATOR = "vp.props.c11:ev"
 RULE = (
     "base documents = sub-lattices of the bounded universes that parse, scan cleanly and contain no pragma; for 2 insertion points per document (chosen by source hash "
     "among all line boundaries, biased to lines that carry a failure) a pragma line is inserted: disable-next-line / disable-num-lines N (N in 1,2,3,99) naming the rule "
     "that fails there (id in lower/upper case or an alias, optionally with a second id) and one malformed pragma; both comment prefixes; oracles: (P1) token stream equals "
     "the base stream with later line numbers +1, (P2) failures equal the shifted base failures minus exactly (named rule, covered line), (P3) a malformed pragma suppresses "
-    "nothing and yields exactly one INLINE error on its line; non-trivial = a failure is suppressed AND another failure survives; distinct by (source hash, insertion, pragma)"
+    "nothing and yields exactly one INLINE error on its line; (P4) fix mode: two pragma lines with anchor paragraphs appended after the document stay directly above their anchors and fix(d with pragmas) minus the pragma lines == fix(d); non-trivial = a failure is suppressed AND another failure survives; distinct by (source hash, insertion, pragma)"
 )
 PRAGMA_LIKE = re.compile(r"<!--")
 POS = re.compile(r"\((\d+),(\d+)\)")
@@ -157,6 +157,23 @@ def ev(src, opts, rank):
                 if len(want) < len(shifted) and want:
                     nt = True
             labels.append(f"{kind}:{'suppresses' if len(want) < len(shifted) else 'noop'}")
+    # (P4) fix mode: pragma lines stay directly above the line they precede and do not change what fix does.
+    # Two pragma lines with anchor paragraphs are appended, so they lie after every fix in the document.
+    if src.strip():
+        from .. import fixlib
+
+        stem = src.rstrip("\n")
+        with_p = stem + "\n\n<!-- pyml disable-next-line md013-->\nzqanchor one\n\n<!-- pyml disable-next-line md013-->\nzqanchor two\n"
+        without = stem + "\n\nzqanchor one\n\nzqanchor two\n"
+        fa, fb = fixlib.fix_once(with_p, []), fixlib.fix_once(without, [])
+        if not fa["error"] and not fb["error"] and fa["text"] is not None:
+            out_lines = fa["text"].split("\n")
+            prag = [i for i, l in enumerate(out_lines) if l.startswith("<!-- pyml disable-next-line md013-->")]
+            if len(prag) != 2 or any(i + 1 >= len(out_lines) or "zqanchor" not in out_lines[i + 1] for i in prag):
+                problems.add("P4:fix-moves-or-loses-pragma-line")
+            elif "\n".join(l for i, l in enumerate(out_lines) if i not in prag) != fb["text"]:
+                problems.add("P4:fix-result-differs-with-pragma-lines")
+            labels.append("fix:" + ("changed" if fa["text"] != with_p else "unchanged"))
     if problems:
         return "fail", ";".join(sorted(problems)), nt, labels
     return "pass", None, nt, labels
